@@ -135,6 +135,7 @@ fn record_suspensions(rep: &mut Report, run: &DecRun) {
 #[allow(clippy::too_many_arguments)]
 fn compare(rep: &mut Report, inp: &Input, base: &Triple, run: &DecRun, mode_name: &str, chunking: &Chunking, budgets: &[usize], base_tail: &str) -> bool {
     rep.count("schedules_run");
+    rep.eval();
     record_suspensions(rep, run);
     let det = || {
         Json::obj(vec![
@@ -183,7 +184,6 @@ pub fn check_input(ctx: &Ctx, rep: &mut Report, inp: &Input, rng: &mut Rng, exha
         rep.count("skipped_output_over_8MiB");
         return;
     }
-    rep.eval();
     rep.count(&format!("inputs_{}", inp.class));
     // flat buffers: reference output length + at least one spare byte
     let cap = r.out.len() + 1 + rng.below(3) + if inp.plain.is_none() { 600 } else { 0 };
